@@ -19,7 +19,7 @@ pub fn run(ctx: &Ctx) -> Report {
     let local = run_cases(ctx, n, |case, l| one_case(ctx, case, l));
     let mut rep = Report::new(
         "exploration",
-        "case i: configuration as C01 (profile=i%13, strategy=(i/13)%6, format/alg/decoys/holder=(i/78)%36); every 25th case \
+        "case i: configuration as C01 (profile=i%14, strategy=(i/14)%6, format/alg/decoys/holder=(i/84)%36); every 25th case \
          enumerates ALL subsets of the paths of a small tree as Custom strategies; every 10th case additionally probes malformed \
          and non-existent paths. Distinct = (claims shape, strategy kind, positions of SD paths, configuration bits); \
          non-trivial = at least one SD path.",
